@@ -62,6 +62,12 @@ Definition encode_lp (attrs : list (N * value)) : res bytes :=
 (* ---- encoding/ndnlp_v2.py ------------------------------------------------------------------- *)
 Definition parse_lp_packet_v2 (w : bytes) : res (list value) := dec_lp w.
 
+(* with_tl=False: [v] is the value part of the LpPacket element *)
+Definition parse_lp_value (v : bytes) : res (list value) :=
+  no_fragmentation lp_fields (parse_model (depth_of lp_fields) lp_fields true v).
+Definition parse_lp_packet_v2_gen (with_tl : bool) (w : bytes) : res (list value) :=
+  if with_tl then parse_lp_packet_v2 w else parse_lp_value w.
+
 (* parse_lp_packet(wire) -> (nack_reason | None, fragment | None) *)
 Definition parse_lp_packet (w : bytes) : res (option N * option bytes) :=
   do vs <- parse_lp_packet_v2 w ;;
